@@ -147,6 +147,9 @@ func runAuthz(j Job) *Result {
 		o.Profile = []string{"", "exit", "keys", "power"}[r.Intn(4)]
 		o.HostileAmt = false
 		o.OracleStart = uint64(2 + r.Intn(5))
+		// the main network after an upgrade that bumps the revision of its chain id: still the main network, governance
+		// is still the only authority
+		o.ChainID = []string{"", "", "exocore_233-2", "exocore_233-247"}[i%4]
 		w, err := ops.BuildLedgerWorld(j.Seed*31+7, i, o)
 		if err != nil {
 			res.Inconclusive = "world construction failed: " + err.Error()
